@@ -65,7 +65,9 @@ PlanOK(pl, ops) ==
     LET live == Len(node.d2k)
         kinds == {ops[i].op : i \in 1..Len(ops)}
     IN CASE pl = "grow"       -> ops # <<>> /\ kinds \subseteq {"add", "addp", "val"}
+         [] pl = "grow2"      -> Len(ops) = Min2(MaxOps, Cardinality({k \in Keys : st[k] = "absent"})) /\ ops # <<>> /\ kinds \subseteq {"add", "addp"}
          [] pl = "shrink"     -> ops # <<>> /\ kinds = {"rem"}
+         [] pl = "drain"      -> Len(ops) = Min2(MaxOps, Cardinality({k \in Keys : st[k] # "absent"})) /\ ops # <<>> /\ kinds = {"rem"}
          [] pl = "ticks"      -> ops # <<>> /\ kinds = {"tick"}
          [] pl = "removeLast" -> live >= 1 /\ \E i \in 1..Len(ops) : ops[i].op = "rem" /\ ops[i].k = node.d2k[live]
          [] pl = "swapTick"   -> live >= 2 /\ (\E i \in 1..Len(ops) : ops[i].op = "rem" /\ ops[i].k = node.d2k[1])
@@ -73,30 +75,27 @@ PlanOK(pl, ops) ==
          [] OTHER             -> TRUE
 
 \* apply one cycle: ops chosen by the environment, forced = values of keys that were pending (PendMode "one")
-Apply(ops, forced) ==
-    LET all  == ops \o forced
-        rems == KeySeq(Sel(all, {"rem"}))
-        news == KeySeq(Sel(all, {"add"})) \o KeySeq(Sel(all, {"val"}))
-        tks  == KeySet(Sel(all, {"tick"}))
-        setv == Sel(all, {"add", "val", "tick"})
-        st1  == [k \in Keys |-> IF \E i \in 1..Len(all) : all[i].k = k
-                                THEN (LET o == all[CHOOSE i \in 1..Len(all) : all[i].k = k]
-                                      IN CASE o.op = "rem" -> "absent" [] o.op = "addp" -> "pending" [] OTHER -> "valid")
-                                ELSE st[k]]
-        val1 == [k \in Keys |-> IF \E i \in 1..Len(setv) : setv[i].k = k
-                                THEN setv[CHOOSE i \in 1..Len(setv) : setv[i].k = k].v
-                                ELSE IF st1[k] = "valid" THEN val[k] ELSE 0]
-        E    == Env(st1, val1, rems, news, KeySet(Sel(all, {"add", "val", "tick"})))
-        out  == IF all = <<>> THEN [n |-> node, res |-> Result(P, node, Now), tick |-> FALSE, grew |-> FALSE, movedTicked |-> FALSE]
-                ELSE NodeCycle(P, node, E)
-        live0 == Len(node.d2k)
-    IN /\ st' = st1 /\ val' = val1
-       /\ node' = out.n
-       /\ cyc' = cyc + 1
-       /\ hist' = Append(hist, [ops |-> all, ok |-> IF out.res = NoVal THEN 0 ELSE 1, v |-> IF out.res = NoVal THEN 0 ELSE out.res,
-                                tick |-> out.tick, grew |-> out.grew, mvtick |-> out.movedTicked,
-                                rmlast |-> (live0 >= 1 /\ \E i \in 1..Len(rems) : rems[i] = node.d2k[live0]),
-                                live |-> Len(out.n.d2k), cap |-> out.n.cap])
+NewSt(all) == [k \in Keys |-> IF \E i \in 1..Len(all) : all[i].k = k
+                              THEN (LET o == all[CHOOSE i \in 1..Len(all) : all[i].k = k]
+                                    IN CASE o.op = "rem" -> "absent" [] o.op = "addp" -> "pending" [] OTHER -> "valid")
+                              ELSE st[k]]
+NewVal(setv, st1) == [k \in Keys |-> IF \E i \in 1..Len(setv) : setv[i].k = k
+                                     THEN setv[CHOOSE i \in 1..Len(setv) : setv[i].k = k].v
+                                     ELSE IF st1[k] = "valid" THEN val[k] ELSE 0]
+Commit(all, E, out) ==
+    /\ st' = E.st /\ val' = E.val
+    /\ node' = out.n
+    /\ cyc' = cyc + 1
+    /\ hist' = Append(hist, [ops |-> all, ok |-> IF out.res = NoVal THEN 0 ELSE 1, v |-> IF out.res = NoVal THEN 0 ELSE out.res,
+                             tick |-> out.tick, grew |-> out.grew, mvtick |-> out.movedTicked,
+                             rmlast |-> (Len(node.d2k) >= 1 /\ \E i \in 1..Len(E.rems) : E.rems[i] = node.d2k[Len(node.d2k)]),
+                             live |-> Len(out.n.d2k), cap |-> out.n.cap])
+Apply3(all, E) == Commit(all, E, IF all = <<>> THEN [n |-> node, res |-> Result(P, node, Now), tick |-> FALSE, grew |-> FALSE, movedTicked |-> FALSE]
+                                 ELSE NodeCycle(P, node, E))
+Apply2(all, st1) == Apply3(all, Env(st1, NewVal(Sel(all, {"add", "val", "tick"}), st1), KeySeq(Sel(all, {"rem"})),
+                                    KeySeq(Sel(all, {"add"})) \o KeySeq(Sel(all, {"val"})) \o (IF Fault = "addpending" THEN KeySeq(Sel(all, {"addp"})) ELSE <<>>), KeySet(Sel(all, {"add", "val", "tick"}))))
+Apply1(all) == Apply2(all, NewSt(all))
+Apply(ops, forced) == Apply1(ops \o forced)
 
 \* PendMode "one": every key that is pending gets its value now unless it is removed now
 Forced(ops) == LET ks == {k \in Keys : st[k] = "pending" /\ \A i \in 1..Len(ops) : ops[i].k # k}
